@@ -15,4 +15,5 @@
 From Batchie Require Export Proofs.C14Source_Base Proofs.C14Source_ScreenSize Proofs.C14Source_ViewInit Proofs.C14Source_Attrs
   Proofs.C14Source_SingleEffects Proofs.C14Source_ViewSize Proofs.C14Source_ViewSubset Proofs.C14Source_ViewInvert
   Proofs.C14Source_ViewCombine Proofs.C14Source_ViewConcat Proofs.C14Source_ToScreen Proofs.C14Source_ScreenSubset
-  Proofs.C14Source_SubsetObserved Proofs.C14Source_GetPlate Proofs.C14Source_UniquePlateIds Proofs.C14Source_Plates.
+  Proofs.C14Source_SubsetObserved Proofs.C14Source_GetPlate Proofs.C14Source_UniquePlateIds Proofs.C14Source_Plates
+  Proofs.C14Source_ScreenAttrs Proofs.C14Source_SpaceSize.
